@@ -17,10 +17,28 @@ DBL_MAX = Fr(2) ** 1023 * (2 - Fr(1, 2 ** 52))
 
 
 def cx_constants():
-    """module-level constants of complex.pyx evaluated exactly"""
-    S2 = Fr('1.414213562373095048801688724209698079')
-    return {'SQRT2': S2, 'LOGE2': Fr('0.693147180559945309417232121458176568'), 'THRESH': (1 / (1 + S2)) * DBL_MAX, 'DBL_MAX_4': Fr(1, 4) * DBL_MAX, 'DBL_MAX': DBL_MAX,
-            'DBL_MIN': Fr(1, 2 ** 1022), 'DBL_MANT_DIG': 53, 'DBL_MANT_DIG_INT': 53}
+    """module-level constants of complex.pyx read from the CURRENT source and evaluated exactly (DBL_MAX, DBL_MIN, DBL_MANT_DIG come from <float.h>)"""
+    c = loader.pyx_module_constants(CX, {'DBL_MAX': DBL_MAX, 'DBL_MIN': Fr(1, 2 ** 1022), 'DBL_MANT_DIG': 53})
+    for k in ('SQRT2', 'LOGE2', 'THRESH', 'DBL_MAX_4', 'DBL_MANT_DIG_INT'):
+        if k not in c:
+            raise RuntimeError('module constant %s of complex.pyx not found (harness out of date)' % k)
+    return c
+
+
+def job_constants():
+    """the module constants the kernels rely on: sqrt 2 and log 2 to 30 digits, the overflow threshold DBL_MAX/(1+sqrt 2), DBL_MAX/4, the scaled-exp constants of npy_math"""
+    c = cx_constants()
+    LN2 = Fr('0.693147180559945309417232121458176568')
+    goals = [('SQRT2^2 == 2 to 1e-30', abs(c['SQRT2'] * c['SQRT2'] - 2) < Fr(1, 10 ** 30)), ('LOGE2 == ln 2 to 1e-30', abs(c['LOGE2'] - LN2) < Fr(1, 10 ** 30)),
+             ('THRESH * (1 + SQRT2) == DBL_MAX', c['THRESH'] * (1 + c['SQRT2']) == DBL_MAX), ('DBL_MAX_4 == DBL_MAX / 4', c['DBL_MAX_4'] * 4 == DBL_MAX),
+             ('SCALED_CEXP_K_D == 1799 and SCALED_K_LOGE2_D == 1799 LOGE2', c.get('SCALED_CEXP_K_D') == 1799 and c.get('SCALED_K_LOGE2_D') == 1799 * c['LOGE2']),
+             ('SCALED_CEXP_LOWER / UPPER as in npy_math (710.47586007394386, 1454.9159319953251)', c.get('SCALED_CEXP_LOWER') == Fr('710.47586007394386') and c.get('SCALED_CEXP_UPPER') == Fr('1454.9159319953251'))]
+    results = []
+    for nm, ok in goals:
+        results.append(discharge(Obligation('complex.pyx module constant: %s' % nm, z3.BoolVal(bool(ok)), [], with_axioms=False, with_dens=False,
+                                            replay=lambda md, nm=nm: (True, 'module-level constant of the current complex.pyx: %s does not hold (values: %r)' % (nm, {k: float(v) for k, v in c.items() if isinstance(v, Fr)})),
+                                            key='const:%s' % nm.split(' ')[0])))
+    return {'results': results, 'encoded': loader.ENCODED + [{'file': CX, 'function': 'module-level constants', 'sha256_16': solve.sha_of(repr(sorted((k, str(v)) for k, v in c.items())))}], 'label': 'constants'}
 
 
 # ------------------------------------------------------------------------------------------------ (a) real-arithmetic identities
@@ -63,13 +81,193 @@ def job_real():
 
 def replay_fn(which, md):
     xv, yv = float(md.get('x', 0.3)), float(md.get('y', -0.7))
+    # compiled module when it is in sync with complex.pyx, otherwise the transliterated current source (float mode)
     if which == 'hypot':
-        r = replay.call_real([{'module': 'TidalPy.utilities.math.complex', 'func': 'hypot', 'args': [xv, yv]}])[0]
+        val, note = replay.pyx_value(CX, 'cf_hypot', [xv, yv], ('TidalPy.utilities.math.complex', 'hypot'))
         want = math.hypot(xv, yv)
-        return (not r['ok']) or abs(r['value'] - want) > 4e-16 * want, 'hypot(%r,%r) = %r, want %r' % (xv, yv, r.get('value'), want)
-    r = replay.call_real([{'module': 'TidalPy.utilities.math.complex', 'func': 'csqrt', 'args': [complex(xv, yv)]}])[0]
+        return abs(val - want) > 4e-16 * want, 'hypot(%r,%r) = %r, want %r [%s]' % (xv, yv, val, want, note)
+    val, note = replay.pyx_value(CX, 'cf_csqrt', [complex(xv, yv)], ('TidalPy.utilities.math.complex', 'csqrt'))
     want = cmath.sqrt(complex(xv, yv))
-    return (not r['ok']) or abs(r['value'] - want) > 1e-15 * abs(want), 'csqrt(%r) = %r, principal value %r' % (complex(xv, yv), r.get('value'), want)
+    return abs(val - want) > 1e-15 * abs(want), 'csqrt(%r) = %r, principal value %r [%s]' % (complex(xv, yv), val, want, note)
+
+
+# ------------------------------------------------------------------------------------------------ exponential, logarithm, general power: structure over uninterpreted libm
+def job_structure():
+    """cf_cabs, cf_carg, cf_cexp, cf_clog and the general branch of cf_cpow are the standard compositions of libm calls: exp, cos, sin, log, log1p, atan2 are uninterpreted (one symbol per
+    syntactically distinct argument), frexp/ldexp are modelled exactly (v = mant * 2^e), sqrt is the usual atom. Finite, non-NaN arguments (real-arithmetic mode)."""
+    c = cx_constants()
+    x, y = Q.sym('x'), Q.sym('y')
+    calls = []
+    memo = {}
+
+    def un(name):
+        def f(*a):
+            key = (name,) + tuple(repr(Q.of(v).re) + '|' + repr(sorted((k, m) for k, (t, m) in Q.of(v).den.items())) for v in a)
+            if key not in memo:
+                memo[key] = Q.sym('%s_%d' % (name, len(memo)))
+                calls.append((name, [Q.of(v) for v in a], memo[key]))
+            return memo[key]
+        return f
+
+    class P2:
+        """integer exponent e of a power of two, carried as the positive number 2^e"""
+        def __init__(self, p):
+            self.p = Q.of(p)
+
+        def __add__(self, o):
+            return P2(self.p * (o.p if isinstance(o, P2) else Q(Fr(2) ** int(Q.of(o).const()))))
+        __radd__ = __add__
+
+    def frexp(v, ref):
+        v = Q.of(v)
+        key = ('frexp', repr(v.re))
+        if key not in memo:
+            memo[key] = (Q.sym('mant_%d' % len(memo)), Q.sym('pow2_%d' % len(memo)))
+            CTX.axiom(eq_goal(v, memo[key][0] * memo[key][1]), 'frexp: v = mant * 2^e')
+            CTX.axiom(memo[key][1].re > 0, '2^e > 0')
+        ref.v = P2(memo[key][1])
+        return memo[key][0]
+
+    def ldexp(a, e):
+        return Q.of(a) * (e.p if isinstance(e, P2) else Q(Fr(2) ** int(Q.of(e).const())))
+
+    class Z:
+        def __init__(self, re, im):
+            self.real, self.imag = Q.of(re), Q.of(im)
+    ns = dict(c)
+    ns.update({'isinf': lambda v: B(False), 'isnan': lambda v: B(False), 'isfinite': lambda v: B(True), 'INFINITY': Q.sym('INF'), 'NAN': Q.sym('NAN'), 'fabs': atoms.absval, 'sqrt': atoms.sqrt,
+               'signbit': lambda v: Q.of(v) < 0, 'copysign': lambda a, b: atoms.absval(Q.of(a)) * NP.sign(Q.of(b)), 'exp': un('exp'), 'cos': un('cos'), 'sin': un('sin'), 'log': un('log'),
+               'log1p': un('log1p'), 'atan2': un('atan2'), 'frexp': frexp, 'ldexp': ldexp, 'ceil': lambda v: Q.of(v), 'cf_hypot': un('hypot')})
+    fns, ns = loader.load_pyx(CX, ['cf_cabs', 'cf_carg', 'cf_scaled_cexp', 'cf_cexp', 'cf_clog', 'cf_cpow'], ns)
+    ns['cf_build_dblcmplx'] = lambda a, b: Z(a, b)
+    results = []
+    fin = [(x <= c['THRESH'] / 2).c, (x >= -c['THRESH'] / 2).c, (y <= c['THRESH'] / 2).c, (y >= -c['THRESH'] / 2).c]
+
+    def float_replay(qual, args_of, want_of, compiled):
+        def rp(md):
+            xv, yv = float(md.get('x', 0.3)), float(md.get('y', -0.7))
+            if not (abs(xv) < 700 and abs(yv) < 700) or (xv == 0 and yv == 0):
+                xv, yv = 0.3, -0.7
+            val, note = replay.pyx_value(CX, qual, args_of(xv, yv), compiled)
+            want = want_of(xv, yv)
+            bad = abs(complex(val) - complex(want)) > 1e-12 * (abs(complex(want)) + 1e-300)
+            return bad, '%s%r = %r, principal value %r [%s]' % (qual, tuple(args_of(xv, yv)), val, want, note)
+        return rp
+    # cabs / carg
+    CTX.facts = fin
+    h = Q.of(fns['cf_cabs'](Z(x, y)))
+    results.append(discharge(Obligation('cf_cabs: |z| >= 0 and |z|^2 == x^2 + y^2', z3.And((h >= 0).c, eq_goal(h * h, x * x + y * y)), fin,
+                                        replay=float_replay('cf_cabs', lambda a, b: [complex(a, b)], lambda a, b: abs(complex(a, b)), ('TidalPy.utilities.math.complex', 'cabs')), key='cabs')))
+    calls.clear(); memo.clear()
+    ang = fns['cf_carg'](Z(x, y))
+    okc = len(calls) == 1 and calls[0][0] == 'atan2' and ang is calls[0][2]
+    results.append(discharge(Obligation('cf_carg(z) is atan2(Im z, Re z)', z3.And(z3.BoolVal(okc), eq_goal(calls[0][1][0], y), eq_goal(calls[0][1][1], x)) if okc else z3.BoolVal(False), fin,
+                                        replay=float_replay('cf_carg', lambda a, b: [complex(a, b)], lambda a, b: cmath.phase(complex(a, b)), ('TidalPy.utilities.math.complex', 'carg')), key='carg')))
+    def rp_cexp(md):
+        # both the ordinary and the scaled branch (Re z in [710.48, 1454.9]: exp(x) overflows but exp(x) cos y need not) against a 50-digit reference
+        import mpmath as mp
+        mp.mp.dps = 50
+        outs = []
+        for xv, yv in ((0.3, -0.7), (710.6, 1.5707963), (720.0, 1.5707963267)):
+            val, note = replay.pyx_value(CX, 'cf_cexp', [complex(xv, yv)], ('TidalPy.utilities.math.complex', 'cexp'))
+            want = mp.exp(mp.mpf(xv)) * mp.mpc(mp.cos(mp.mpf(yv)), mp.sin(mp.mpf(yv)))
+            wr, wi = float(want.real), float(want.imag)
+            ok = all((abs(g - w) <= 1e-11 * abs(w)) or (g == w) for g, w in ((complex(val).real, wr), (complex(val).imag, wi)))
+            outs.append((xv, yv, val, complex(wr, wi) if abs(wr) < 1e308 and abs(wi) < 1e308 else (wr, wi), ok))
+            if not ok:
+                return True, 'cf_cexp(%r+%rj) = %r, reference %r [%s]' % (xv, yv, val, outs[-1][3], note)
+        return False, 'cf_cexp agrees with the reference at %r' % [o[:2] for o in outs]
+    # cexp: every finite path returns exp(x) (cos y + i sin y); the scaled path through frexp/ldexp needs exp(x - K ln2) 2^K = exp(x)
+    K = c['SCALED_CEXP_K_D']
+    ex = Explorer(assumptions=fin, max_paths=64)
+
+    def run_exp():
+        calls.clear(); memo.clear()
+        r = fns['cf_cexp'](Z(x, y))
+        return r, list(calls)
+    for p in ex.run(run_exp):
+        if p.exc is not None:
+            raise RuntimeError('cexp raised %r' % p.exc)
+        r, cl = p.result
+        E = [cc for cc in cl if cc[0] == 'exp']
+        C = [cc for cc in cl if cc[0] == 'cos']
+        S = [cc for cc in cl if cc[0] == 'sin']
+        tagp = ''.join('T' if d else 'F' for d in p.decisions)
+        if not (len(E) == 1 and len(C) == 1 and len(S) == 1):
+            goal = z3.BoolVal(False)
+            A = fin + p.pc
+        else:
+            ex_x = Q.sym('exp_of_x')          # the mathematical exp(x)
+            A = fin + p.pc + [ex_x.re > 0]
+            shift = E[0][1][0] - x
+            same = lambda q, v: z3.is_true(z3.simplify(eq_goal(q, Q(v))))
+            # exp functional equation instantiated for the actual argument: exp(x + s) = exp(x) exp(s), with exp(-K LOGE2) = 2^-K (LOGE2 = ln 2, constants obligation)
+            plain_, scaled_ = same(shift, Fr(0)), same(shift, -K * c['LOGE2'])
+            if plain_:
+                A.append(eq_goal(E[0][2], ex_x))
+            elif scaled_:
+                A.append(eq_goal(E[0][2] * Fr(2) ** int(K), ex_x))
+            goal = z3.And(eq_goal(C[0][1][0], y), eq_goal(S[0][1][0], y), eq_goal(Q.of(r.real), ex_x * C[0][2]), eq_goal(Q.of(r.imag), ex_x * S[0][2]), z3.BoolVal(bool(plain_ or scaled_)))
+        results.append(discharge(Obligation('cf_cexp path %s: exp(x) (cos y + i sin y) (scaled path: exp(x - K ln2) 2^K with frexp/ldexp exact)' % tagp, goal, A,
+                                            replay=rp_cexp, key='cexp')))
+    # clog: imaginary part atan2(y, x) on every path; real part log of the modulus (with the documented rescalings)
+    ex = Explorer(assumptions=fin + [z3.Or(x.re != 0, y.re != 0)], max_paths=64)
+
+    def run_log():
+        calls.clear(); memo.clear()
+        r = fns['cf_clog'](Z(x, y))
+        return r, list(calls)
+    ax, ay = atoms.absval(x), atoms.absval(y)
+    for p in ex.run(run_log):
+        if p.exc is not None:
+            raise RuntimeError('clog raised %r' % p.exc)
+        r, cl = p.result
+        tagp = ''.join('T' if d else 'F' for d in p.decisions)
+        A = fin + p.pc + [z3.Or(x.re != 0, y.re != 0)]
+        at = [cc for cc in cl if cc[0] == 'atan2']
+        hy = [cc for cc in cl if cc[0] == 'hypot']
+        lg = [cc for cc in cl if cc[0] in ('log', 'log1p')]
+        conds = [z3.BoolVal(len(at) == 1 and len(lg) <= 1)]
+        if len(at) == 1:
+            conds += [eq_goal(at[0][1][0], y), eq_goal(at[0][1][1], x), eq_goal(Q.of(r.imag), at[0][2])]
+        if len(lg) == 1 and lg[0][0] == 'log' and len(hy) == 1:
+            # log(hypot(s|x|, s|y|)) + shift: s in {1, 1/2, 2^53}, shift in {0, +LOGE2, -53 LOGE2}  <=>  log(hypot(|x|,|y|))
+            sx = hy[0][1][0]
+            conds.append(eq_goal(lg[0][1][0], hy[0][2]))
+            variants = []
+            for sc, sh in ((Fr(1), Fr(0)), (Fr(1, 2), c['LOGE2']), (Fr(2) ** 53, -53 * c['LOGE2'])):
+                variants.append(z3.And(eq_goal(hy[0][1][0], sc * ax), eq_goal(hy[0][1][1], sc * ay), eq_goal(Q.of(r.real), lg[0][2] + sh)))
+            conds.append(z3.Or(*variants))
+        elif len(lg) == 1 and lg[0][0] == 'log1p' and len(hy) == 1:
+            # log1p(h^2 - 1) / 2 with h^2 = x^2 + y^2
+            conds += [eq_goal(hy[0][1][0], ax), eq_goal(hy[0][1][1], ay), eq_goal(lg[0][1][0], x * x + y * y - 1), eq_goal(Q.of(r.real), lg[0][2] / 2)]
+        else:
+            conds.append(z3.BoolVal(False))
+        results.append(discharge(Obligation('cf_clog path %s: Im = atan2(y, x); Re = log hypot(|x|,|y|) (rescaled by 1/2 or 2^53 with the matching LOGE2 shift, or log1p(|z|^2 - 1)/2 near |z| = 1)' % tagp,
+                                            z3.And(*conds), A,
+                                            replay=float_replay('cf_clog', lambda a, b: [complex(a, b)], lambda a, b: cmath.log(complex(a, b)), ('TidalPy.utilities.math.complex', 'clog')), key='clog')))
+    # cpow, general branch: cexp(b * clog(a)) as complex multiplication
+    lr, li, out = Q.sym('clog_re'), Q.sym('clog_im'), Q.sym('cexp_out')
+    got = []
+    ns['cf_clog'] = lambda v: Z(lr, li)
+    ns['cf_cexp'] = lambda v: (got.append(v), Z(out, Q(0)))[1]
+    br, bi = Q.sym('b_re'), Q.sym('b_im')
+    Ab = fin + [bi.re != 0, z3.Or(x.re != 0, y.re != 0)]
+    CTX.facts = Ab
+    ex = Explorer(assumptions=Ab, max_paths=64)
+    for p in ex.run(lambda: (got.clear(), fns['cf_cpow'](Z(x, y), Z(br, bi)), list(got))[1:]):
+        if p.exc is not None:
+            raise RuntimeError('cpow raised %r' % p.exc)
+        r, g = p.result
+        okg = len(g) == 1
+        goal = z3.And(z3.BoolVal(okg), eq_goal(g[0].real, lr * br - li * bi), eq_goal(g[0].imag, lr * bi + li * br)) if okg else z3.BoolVal(False)
+        results.append(discharge(Obligation('cf_cpow general branch (Im b != 0) path %s: cexp((Re b + i Im b)(log_re + i log_im)) with (log_re, log_im) = clog(a)' % ''.join('T' if d else 'F' for d in p.decisions),
+                                            goal, Ab + p.pc,
+                                            replay=lambda md: (lambda val_note: (abs(complex(val_note[0]) - complex(0.9, 0.5) ** complex(1.3, 0.4)) > 1e-12, 'cf_cpow(0.9+0.5j, 1.3+0.4j) = %r, principal value %r [%s]' % (
+                                                val_note[0], complex(0.9, 0.5) ** complex(1.3, 0.4), val_note[1])))(replay.pyx_value(CX, 'cf_cpow', [complex(0.9, 0.5), complex(1.3, 0.4)], ('TidalPy.utilities.math.complex', 'cpow'))),
+                                            key='cpow:general')))
+    results.append(reach_twin('structure', fin))
+    return {'results': results, 'encoded': loader.ENCODED, 'axioms': CTX.axiom_notes, 'label': 'exp/log/pow structure'}
 
 
 # ------------------------------------------------------------------------------------------------ integer powers (formal indeterminate)
@@ -108,29 +306,42 @@ def job_ipow(ns_lo, ns_hi):
     for n in nlist:
         # plain python ints for n; `a` real indeterminate; zero tests a_real == 0 resolved by the fact a != 0
         CTX.facts = A
-        exp_args.clear()
-        r = fns['cf_cipow'](a, n)
-        if abs(n) >= 100:
-            okk = len(exp_args) == 1 and isinstance(exp_args[0], _Pair) and r is exp_out
-            conds_i.append((n, z3.And(z3.BoolVal(okk), eq_goal(exp_args[0].real, log_re * n), eq_goal(exp_args[0].imag, log_im * n)) if okk else z3.BoolVal(False)))
-            continue
-        want = atoms.power(a, n)
-        conds_i.append((n, eq_goal(Q.of(r), want)))
+        # every branch on the base is explored (a test such as `a_real == 1.` forks instead of silently taking the false side)
+        def all_paths(call):
+            ex_ = Explorer(assumptions=A, max_paths=16)
+            return [p_ for p_ in ex_.run(call)]
+        want = atoms.power(a, n) if abs(n) < 100 else None
+        parts = []
+        for p_ in all_paths(lambda: (exp_args.clear(), fns['cf_cipow'](a, n), list(exp_args))[1:]):
+            if p_.exc is not None:
+                parts.append(z3.BoolVal(False))
+                continue
+            r, eargs = p_.result
+            pc_ = z3.And(*p_.pc) if p_.pc else z3.BoolVal(True)
+            if abs(n) >= 100:
+                okk = len(eargs) == 1 and isinstance(eargs[0], _Pair) and r is exp_out
+                parts.append(z3.Implies(pc_, z3.And(z3.BoolVal(okk), eq_goal(eargs[0].real, log_re * n), eq_goal(eargs[0].imag, log_im * n)) if okk else z3.BoolVal(False)))
+            else:
+                parts.append(z3.Implies(pc_, eq_goal(Q.of(r), want)))
+        conds_i.append((n, z3.And(*parts)))
         if -100 < n < 100:
-            r2 = fns['cf_cpow'](a, Q(n))
-            conds_p.append((n, eq_goal(Q.of(r2), want)))
+            parts = []
+            for p_ in all_paths(lambda: fns['cf_cpow'](a, Q(n))):
+                pc_ = z3.And(*p_.pc) if p_.pc else z3.BoolVal(True)
+                parts.append(z3.BoolVal(False) if p_.exc is not None else z3.Implies(pc_, eq_goal(Q.of(p_.result), want)))
+            conds_p.append((n, z3.And(*parts)))
 
     def rp(md, which):
         bad = None
-        for n in nlist[:: max(1, len(nlist) // 7)]:
+        for n in sorted(set(nlist[:: max(1, len(nlist) // 7)] + [k for k in (-3, -2, -1, 1, 2, 3, 5, 7, 16) if k in nlist])):
             z = complex(0.9, 0.5)
             if which == 'cipow':
-                r = replay.call_real([{'module': 'TidalPy.utilities.math.complex', 'func': 'cipow', 'args': [z, n]}])[0]
+                val, note = replay.pyx_value(CX, 'cf_cipow', [z, n], ('TidalPy.utilities.math.complex', 'cipow'))
             else:
-                r = replay.call_real([{'module': 'TidalPy.utilities.math.complex', 'func': 'cpow', 'args': [z, complex(n, 0)]}])[0]
+                val, note = replay.pyx_value(CX, 'cf_cpow', [z, complex(n, 0)], ('TidalPy.utilities.math.complex', 'cpow'))
             want = z ** n
-            if (not r['ok']) or abs(r['value'] - want) > 1e-12 * abs(want):
-                bad = (n, r.get('value'), want)
+            if abs(val - want) > 1e-12 * abs(want):
+                bad = (n, val, want, note)
         return bad is not None, '%s(0.9+0.5j, n): %r' % (which, bad)
     for i in range(0, len(conds_i), 40):
         chunk = conds_i[i:i + 40]
@@ -360,12 +571,12 @@ CLAUSES = ['zero+0', 'zero-0', 'x+iinf', 'x-iinf', 'fin+inan', '-inf+iy', '-inf-
 
 
 def main():
-    jobs = [(job_real, {}), (job_dfact, {}), (job_sqrt_neg, {})]
+    jobs = [(job_real, {}), (job_dfact, {}), (job_sqrt_neg, {}), (job_constants, {}), (job_structure, {})]
     jobs += [(job_annexg, {'clause': c}) for c in CLAUSES]
     if TIER == 'thorough':
         jobs += [(job_ipow, {'ns_lo': a, 'ns_hi': b}) for a, b in ((-200, -101), (-100, -1), (0, 100), (101, 200))]
     else:
-        jobs += [(job_ipow, {'ns_lo': -40, 'ns_hi': 40})]
+        jobs += [(job_ipow, {'ns_lo': -40, 'ns_hi': 40}), (job_ipow, {'ns_lo': 99, 'ns_hi': 101}), (job_ipow, {'ns_lo': -101, 'ns_hi': -99}), (job_ipow, {'ns_lo': 150, 'ns_hi': 150})]
     meta = {
         'explanation': 'complex.pyx and special_x.pyx are transliterated from the current source. (a) cf_hypot/cf_csqrt executed over the reals with path exploration: w^2=z, Re w>=0 decided per path; '
                        '(b) the same cf_csqrt source executed with IEEE Float64 values in QF_FP, one query per C99 G.6.4.2 clause (and conjugate-symmetric twins); (c) cf_cipow / the cf_cpow integer fast path '
